@@ -19,3 +19,27 @@ pub fn hit(name: &'static str) {
 pub fn take_probes() -> BTreeMap<&'static str, u64> {
     PROBES.with(|p| std::mem::take(&mut *p.borrow_mut()))
 }
+
+/// Resets the process-global state (`PERMIT_BAN_LIST`, metrics) so that consecutive simulated
+/// runs in one process start from the same state.
+pub fn reset_globals() {
+    use std::sync::atomic::Ordering;
+    *crate::discv5::PERMIT_BAN_LIST.write() = crate::PermitBanList::default();
+    let m = &crate::metrics::METRICS;
+    m.active_sessions.store(0, Ordering::Relaxed);
+    m.unsolicited_requests_per_window.store(0, Ordering::Relaxed);
+    m.bytes_sent.store(0, Ordering::Relaxed);
+    m.bytes_recv.store(0, Ordering::Relaxed);
+    m.ipv4_contactable.store(false, Ordering::Relaxed);
+    m.ipv6_contactable.store(false, Ordering::Relaxed);
+}
+
+/// A copy of the process-global permit/ban list.
+pub fn permit_ban_snapshot() -> crate::PermitBanList {
+    crate::discv5::PERMIT_BAN_LIST.read().clone()
+}
+
+/// Replaces the process-global permit/ban list.
+pub fn permit_ban_set(list: crate::PermitBanList) {
+    *crate::discv5::PERMIT_BAN_LIST.write() = list;
+}
